@@ -114,4 +114,23 @@ def changeValue (dt : DType F) (j : JVal F) (held : PVal F) : Res F :=
   | .error e => .error e
   | .ok r => validate dt r none
 
+/-- what can happen to the value a parameter holds: a driver update (`announceUpdate(pname, value)`, which converts
+with `datatype(value)` and keeps the old value when that raises, modulebase.py:556-565) or a `change` request -/
+inductive ParamEvent (F : Type) where
+  | update (v : PVal F)
+  | change (j : JVal F)
+
+def holdStep (dt : DType F) (held : PVal F) : ParamEvent F → PVal F
+  | .update v =>
+    match call dt v with
+    | .ok r => r
+    | .error _ => held
+  | .change j =>
+    match changeValue dt j held with
+    | .ok r => r
+    | .error _ => held
+
+/-- the value held after a history of updates and change requests -/
+def holdRun (dt : DType F) (held : PVal F) (evs : List (ParamEvent F)) : PVal F := evs.foldl (holdStep dt) held
+
 end Frappy.Datatypes
